@@ -38,6 +38,7 @@ pub fn parse_conway(s: &str) -> Option<Value> {
 fn geom(s: &PartialDSym) -> Value {
     let mut g = json!({"sym": dsym_json(s)});
     pending(&g);
+    with_decoy(s, |d| { let _ = (curvature(d), orbifold_symbol(d), is_euclidean(d), is_hyperbolic(d), is_spherical(d)); });
     match catch(|| (curvature(s), orbifold_symbol(s), is_euclidean(s), is_hyperbolic(s), is_spherical(s))) {
         Ok((k, sy, e, h, sp)) => {
             g["curv"] = json!([*k.numer(), *k.denom()]);
